@@ -149,9 +149,9 @@ def hedge_histories(draw):
     D = draw(st.integers(1, 3))
     mag = st.sampled_from([0.0, 1e-8, 1e-3, 1.0, 37.5, 1e4, 1e8])
     sign = st.sampled_from([1.0, -1.0])
-    step = st.fixed_dictionaries(dict(fval_old=st.tuples(mag, sign), f=st.tuples(mag, sign), fs=st.sampled_from([0.0, 1e-8, 1e-3, 1.0, 1e4, 1e8]),
+    step = scenario.record(fval_old=st.tuples(mag, sign), f=st.tuples(mag, sign), fs=st.sampled_from([0.0, 1e-8, 1e-3, 1.0, 1e4, 1e8]),
                                       mesh_exp=st.integers(-30, 0), gp_f=st.tuples(mag, sign), gp_s2=st.sampled_from([0.0, 1e-12, 1.0, 1e6]),
-                                      update=st.sampled_from([True, True, True, False])))
+                           update=st.sampled_from([True, True, True, False]))
     return dict(gamma=gamma, tol_fun=tol_fun, D=D, seed=draw(st.integers(0, 2**31 - 1)), steps=draw(st.lists(step, min_size=1, max_size=30)))
 
 
@@ -219,10 +219,13 @@ def body_hedge(case):
 
 
 def plan(tier):
-    return [("mask", 16), ("hedge", 8), ("runs", 16)]
+    return [("mask", 16), ("hedge", 8), ("runs", 16)] + ([("fuzz", 16)] if tier == "thorough" else [])
 
 
 def run_part(res, part, tier, seed, shard, nshards):
+    if part == "fuzz":
+        # coverage-guided campaign (atheris/libFuzzer) on the same Hypothesis test, empty corpus, fixed -runs and -seed
+        return engine.run_fuzz_part(res, "C18", "fuzz", 20000, seed, shard)
     if part == "mask":
         run_mask(res, tier, shard, nshards)
     elif part == "hedge":
@@ -234,7 +237,7 @@ def run_part(res, part, tier, seed, shard, nshards):
 def minimise(part, tier, sig, case, seed):
     if part == "runs":
         return runlevel.field_minimise(case, sig, body_run, max_runs=12 if tier == "quick" else 40)
-    if part == "hedge":
+    if part in ("hedge", "fuzz"):
         m = engine.hyp_minimise(hedge_histories(), lambda c: any(engine.signature(x) == sig for x in run_hedge(c)[0]), 4000, seed)
         return {"case": m or case, "note": "hypothesis shrink" if m else "unminimised"}
     return {"case": case, "note": "exhaustive (mu, lambda) cell"}
@@ -243,7 +246,7 @@ def minimise(part, tier, sig, case, seed):
 def replay(part, case):
     if part == "runs":
         return runlevel.replay_body(body_run, case)
-    if part == "hedge":
+    if part in ("hedge", "fuzz"):
         return run_hedge(case)[0]
     from pybads.search.es_search import ESSearchWM
 
@@ -253,3 +256,7 @@ def replay(part, case):
 
 def floors(tier):
     return {"run:nontrivial": 10, "hedge:>=5updates": 300}
+
+
+def fuzz_entry(entry):
+    return hedge_histories(), body_hedge
